@@ -64,6 +64,13 @@ fn fixed_cases() -> Vec<RuleCase> {
         f("\\P{L}+ (regex)", &[("123\n", true), ("12a\n", false)]),
         f("[\\p{Greek}]+ (regex)", &[("\u{3b1}\u{3b2}\n", true), ("ab\n", false)]),
         f("\\x{68}i (regex)", &[("hi\n", true), ("ho\n", false)]),
+        // open-ended counted repetition
+        f("a{2,} (regex)", &[("aaa\n", true), ("aa\n", true), ("a\n", false), ("a{2,}\n", false)]),
+        f("x\\d{2,}y (regex)", &[("x123y\n", true), ("x1y\n", false)]),
+        // unbalanced parentheses must not get out of the whole-line anchoring
+        f("a)|(b (regex)", &[("axyz\n", false), ("xyzb\n", false)]),
+        // escaped: `\x` and `\0` take hexadecimal / octal digits, not a sign
+        f("\\x+f (escaped)", &[("\x0f\n", false)]),
         f("\\x{1F600}! (regex)", &[("\u{1F600}!\n", true)]),
         f("\\u{1F600}{2} (regex)", &[("\u{1F600}\u{1F600}\n", true), ("\u{1F600}\n", false)]),
         f("foo|bar (re)", &[("foo\n", true), ("bar\n", true), ("fooxx\n", false), ("xxbar\n", false), ("foobar\n", false)]),
@@ -381,7 +388,11 @@ impl Engine for VcRules {
                 let e = match parse(text, false) {
                     Ok(Ok(e)) => e,
                     Ok(Err(err)) => {
-                        fail("documented-example", "parses".into(), format!("Err({err}) for `{text}`"), &mut res);
+                        // an expression that is not a regular expression by itself may be rejected (and otherwise must not
+                        // match more than whole lines)
+                        if !(text.starts_with("a)|(b") || text.starts_with("\\x+f")) {
+                            fail("documented-example", "parses".into(), format!("Err({err}) for `{text}`"), &mut res);
+                        }
                         return res;
                     }
                     Err(p) => {
